@@ -60,7 +60,7 @@ def run(tier, seed):
 
     # 1. the reference itself, all segmentations
     mc = S("server", ["post", "get10"], ["cl3", "te", "lf", "fold"] + ([] if q else ["clplus", "cl5"]),
-           ["none", "b3", "chtr"], 2, 1, seg="all")
+           ["none", "b3", "chtr"], 1 if q else 2, 1, seg="all", sizes=(1, 2, 3, 5, 8, 13, 21) if q else ())
     hc.model_check(chk, "C23_mc", mc, workers=8 if q else None)
 
     # 2. general corpus (no finding trigger), exhaustive over each alphabet
@@ -82,9 +82,10 @@ def run(tier, seed):
     total_fail = 0
     for name, c, single in corp:
         st = hc.generate(chk, "C23_" + name, c, workers=8 if q else None)
-        bad = [s for s in st if finding_key(s)]
-        if bad:
-            raise vkit.InfraError("general corpus %s contains finding triggers, e.g. %s" % (name, bad[0]["toks"]))
+        n0 = len(st)
+        st = [s for s in st if not finding_key(s)]       # triggers of open findings are probed separately (step 4)
+        if len(st) < 0.7 * n0:
+            raise vkit.InfraError("general corpus %s is mostly finding triggers (%d of %d left)" % (name, len(st), n0))
         for s in st:
             chk.count_case([s["bytes"]], nontrivial=len(s["bytes"]) > 30)
         for s in st[:1]:
